@@ -556,10 +556,10 @@ def toyIds (m : Md) : Ids := ⟨m.tag % 16, (m.tag / 16) % 4, m.tag / 64⟩
 def ktag (proto sid seq : Nat) : Nat := proto + 16 * sid + 64 * seq
 
 /-- own connection, server→client, nonce base 100: open response (session 1, seq 0), open response of
-    the multiplexed session 2, data (session 1, seq 1), data (session 1, seq 2) -/
+    the multiplexed session 2, data (session 1, seq 1) -/
 def kown : Stream := ⟨100, false,
   [⟨⟨0, 2, 0, ktag 3 1 0⟩, [1, 2], [], []⟩, ⟨⟨0, 1, 0, ktag 3 2 0⟩, [9], [], []⟩,
-   ⟨⟨0, 3, 0, ktag 7 1 1⟩, [3, 4, 5], [], []⟩, ⟨⟨0, 1, 0, ktag 7 1 2⟩, [6], [], []⟩]⟩
+   ⟨⟨0, 3, 0, ktag 7 1 1⟩, [3, 4, 5], [], []⟩]⟩
 /-- own connection, client→server (what this client sealed itself), nonce base 5 -/
 def krev : Stream := ⟨5, true,
   [⟨⟨0, 2, 0, ktag 2 1 0⟩, [7, 7], [], []⟩, ⟨⟨0, 1, 0, ktag 6 1 1⟩, [8], [], []⟩, ⟨⟨0, 0, 0, ktag 4 1 2⟩, [], [], []⟩]⟩
@@ -592,7 +592,7 @@ def kwire (st : Stream) : Bytes :=
   ((ptsOf toyCodecT st.segs).zipIdx.map (fun x => tenc (st.c + x.2) x.1)).flatten
 
 theorem kfam_disjoint : NonceRangesDisjoint kfam := by
-  have e1 : ctr kown.c kown.segs = 108 := by decide
+  have e1 : ctr kown.c kown.segs = 106 := by decide
   have e2 : ctr krev.c krev.segs = 10 := by decide
   have e3 : ctr koth.c koth.segs = 204 := by decide
   have c1 : kown.c = 100 := rfl
@@ -603,35 +603,33 @@ theorem kfam_disjoint : NonceRangesDisjoint kfam := by
   rcases h1 with rfl | rfl | rfl <;> rcases h2 with rfl | rfl | rfl <;> first | rfl | (exfalso; omega)
 
 /-- Every hypothesis of `tcp_tamper_key_history` holds for the family (session 1, client reader), and:
-    the genuine own stream is read completely (session 2's segment is filtered out); a receiver ALIGNED
-    to the reverse direction (reflection, its own nonce 5) emits those segments — the AEAD accepts
-    them — and the reader gets NOTHING; aligned to the other connection (splice, nonce 200) it emits
-    that connection's segments and the reader gets nothing; started at the own stream's third segment
-    (nonce 104) the in-order check delivers nothing. -/
+    the genuine own stream is decoded completely and read completely (session 2's segment is filtered
+    out); a receiver ALIGNED to the reverse direction (reflection, its own nonce 5) emits those
+    segments — the AEAD accepts them — and the client's reader gets NOTHING (the server's reader, whose
+    stream it is, gets everything up to the close); aligned to the other connection (splice, nonce 200)
+    it emits that connection's segments and the reader gets nothing; started at the own stream's third
+    segment (nonce 104) the in-order check delivers nothing; the server's reader of session 1 gets
+    nothing from its own server→client stream reflected. -/
 example :
     (∀ n ct p, toyOpenK toyCodecT kfam n ct = some p → honestK toyCodecT kfam n p) ∧
     NonceRangesDisjoint kfam ∧ (∀ st ∈ kfam, ∀ s ∈ st.segs, s.wfT toyCodecT) ∧ DomSepK toyCodecT kfam ∧
     DirWf toyIds kfam ∧ SeqWf toyIds 1 kfam ∧
     (∀ st ∈ kfam, st.fromClient = !true → dataOf toyIds 1 st.segs ≠ [] → st = kown) ∧
-    appRead toyIds true 1 (feedG (toyOpenK toyCodecT kfam) (fun _ => toyOpenK toyCodecT kfam) toyCodecT 6
-      ⟨100, [], [], false⟩ (kwire kown)).out = [[1, 2], [3, 4, 5], [6]] ∧
+    (feedG (toyOpenK toyCodecT kfam) (fun _ => toyOpenK toyCodecT kfam) toyCodecT 6
+      ⟨100, [], [], false⟩ (kwire kown)).out = kown.segs.map (fun s => (s.md, s.payload)) ∧
+    appRead toyIds true 1 (kown.segs.map (fun s => (s.md, s.payload))) = [[1, 2], [3, 4, 5]] ∧
+    appRead toyIds false 1 (kown.segs.map (fun s => (s.md, s.payload))) = [] ∧
     (feedG (toyOpenK toyCodecT kfam) (fun _ => toyOpenK toyCodecT kfam) toyCodecT 6
       ⟨5, [], [], false⟩ (kwire krev)).out = krev.segs.map (fun s => (s.md, s.payload)) ∧
-    appRead toyIds true 1 (feedG (toyOpenK toyCodecT kfam) (fun _ => toyOpenK toyCodecT kfam) toyCodecT 6
-      ⟨5, [], [], false⟩ (kwire krev)).out = [] ∧
+    appRead toyIds true 1 (krev.segs.map (fun s => (s.md, s.payload))) = [] ∧
+    appRead toyIds false 1 (krev.segs.map (fun s => (s.md, s.payload))) = [[7, 7], [8]] ∧
     (feedG (toyOpenK toyCodecT kfam) (fun _ => toyOpenK toyCodecT kfam) toyCodecT 6
       ⟨200, [], [], false⟩ (kwire koth)).out = koth.segs.map (fun s => (s.md, s.payload)) ∧
-    appRead toyIds true 1 (feedG (toyOpenK toyCodecT kfam) (fun _ => toyOpenK toyCodecT kfam) toyCodecT 6
-      ⟨200, [], [], false⟩ (kwire koth)).out = [] ∧
-    appRead toyIds true 1 (feedG (toyOpenK toyCodecT kfam) (fun _ => toyOpenK toyCodecT kfam) toyCodecT 6
-      ⟨104, [], [], false⟩ ((kwire kown).drop 117)).out = [] ∧
-    -- the SERVER's reader of session 1 against its own server→client stream reflected: nothing either
-    appRead toyIds false 1 (feedG (toyOpenK toyCodecT kfam) (fun _ => toyOpenK toyCodecT kfam) toyCodecT 6
-      ⟨100, [], [], false⟩ (kwire kown)).out = [] ∧
-    -- … and of the client→server stream it is meant to read: everything up to the close
-    appRead toyIds false 1 (feedG (toyOpenK toyCodecT kfam) (fun _ => toyOpenK toyCodecT kfam) toyCodecT 6
-      ⟨5, [], [], false⟩ (kwire krev)).out = [[7, 7], [8]] := by
-  refine ⟨toyOpenK_ideal _ _, kfam_disjoint, ?_, ?_, ?_, ?_, ?_, ?_, ?_, ?_, ?_, ?_, ?_, ?_, ?_⟩
+    appRead toyIds true 1 (koth.segs.map (fun s => (s.md, s.payload))) = [] ∧
+    (feedG (toyOpenK toyCodecT kfam) (fun _ => toyOpenK toyCodecT kfam) toyCodecT 6
+      ⟨104, [], [], false⟩ ((kwire kown).drop 131)).out = (kown.segs.drop 2).map (fun s => (s.md, s.payload)) ∧
+    appRead toyIds true 1 ((kown.segs.drop 2).map (fun s => (s.md, s.payload))) = [] := by
+  refine ⟨toyOpenK_ideal _ _, kfam_disjoint, ?_, ?_, ?_, ?_, ?_, ?_, ?_, ?_, ?_, ?_, ?_, ?_, ?_, ?_, ?_⟩
   · show ∀ st ∈ kfam, ∀ s ∈ st.segs, (s.md.payloadLen = 0 ↔ s.payload = []) ∧ toyCodecT.ok s.md = true
     decide
   · show ∀ st ∈ kfam, ∀ s ∈ st.segs, s.payload ≠ [] → toyCodecT.dec s.payload = none
